@@ -1,3 +1,152 @@
-import Mhd.Model.LoopRounds
+/-
+  C06 — Progress: no lost wake-up, every request is answered or closed.
+
+  Statements only; proofs are in Mhd.Proofs.Loop*.  The event-loop model is
+  Mhd.Model.Loop / LoopRounds (connection lists in pointer order, flags,
+  call_handlers, the three traversals following `prev` / `prevE`, get_fdset,
+  get_timeout).  What a handler does to its own connection is the parameter
+  `ops : Ops W`; the theorems hold for EVERY `ops` that satisfies the law record
+  `Laws ops needs` (Mhd.Proofs.LoopCH), every daemon state satisfying the
+  invariant, every readiness set, every history — no bound on the number of
+  connections, rounds or handler calls.
+
+  `needs l` = "the connection has work that can proceed without new network input
+  or an explicit resume".
+-/
+import Mhd.Proofs.LoopHist
+
 namespace Mhd.C06
+open Mhd.Loop Mhd.Gen.Loop
+
+variable {W : Type}
+
+/-! ## the tie to the source text: all three loops read the next pointer before the call -/
+
+/-- `internal_run_from_select` saves `pos->prev` before `call_handlers` (regenerated from
+    daemon.c; false on a tree without the F10 fix, and then this file does not compile). -/
+theorem code_select_saves_prev : selectSavesPrev = true := by decide
+theorem code_poll_saves_prev : pollSavesPrev = true := by decide
+theorem code_epoll_saves_prev : epollSavesPrev = true := by decide
+
+/-- hence the round functions of the model that follow /repo are the ones the theorems are about -/
+theorem runFromSelect_is_saved (ops : Ops W) (d : Daemon W) (rdy : Ready) :
+    runFromSelect ops d rdy = runFromSelectWith ops true d rdy := by
+  unfold runFromSelect; rw [code_select_saves_prev]
+theorem pollAll_is_saved (ops : Ops W) (d : Daemon W) (rdy : Ready) :
+    pollAll ops d rdy = pollAllWith ops true d rdy := by
+  unfold pollAll; rw [code_poll_saves_prev]
+
+/-- the bit tests of the loops on `event_loop_info` (values regenerated from internal.h) -/
+theorem eli_bits : ∀ e : Eli,
+    (e.hasRead = true ↔ (e = .read ∨ e = .processRead)) ∧
+    (e.hasProcess = true ↔ (e = .process ∨ e = .processRead)) ∧
+    (e.isWrite = true ↔ e = .write) := by
+  intro e; cases e <;> decide
+
+/-! ## call_handlers -/
+
+/-- call_handlers always ends with MHD_connection_handle_idle on that connection … -/
+theorem call_handlers_idles (ops : Ops W) (ep : Bool) (c : Conn W) (wh : Wh) (rr wr fc : Bool) :
+    Ev.idle c.id ∈ (chLocal ops ep c wh rr wr fc).evs :=
+  chLocal_idled ops ep c wh rr wr fc
+
+/-- … so a connection it leaves in the active list is in sync (work pending ⇒ PROCESS state),
+    and the `data_already_pending` block was reached for it. -/
+theorem call_handlers_sync {ops : Ops W} {needs : Local W → Bool} (L : Laws ops needs) (ep : Bool) (c : Conn W)
+    (rr wr fc : Bool) (h : (chLocal ops ep c .active rr wr fc).wh = .active) :
+    Sync needs (chLocal ops ep c .active rr wr fc).c ∧ (chLocal ops ep c .active rr wr fc).dapCheck = true :=
+  ⟨chLocal_sync L ep c .active rr wr fc h, chLocal_dapCheck L ep c rr wr fc h⟩
+
+/-! ## round post-condition -/
+
+/-- **select.**  For every daemon state satisfying the invariant, every readiness set and every
+    lawful `ops`: after `MHD_run_from_select2` the invariant holds again — in particular every
+    active connection is in sync and `data_already_pending` is set if one of them is in a PROCESS
+    state — and every connection that is active afterwards was passed through handle_idle in
+    this round (including connections resumed or added in this round). -/
+theorem select_round_post {ops : Ops W} {needs : Local W → Bool} (L : Laws ops needs) {d : Daemon W}
+    (h : InvSP needs d) (rdy : Ready) :
+    InvSP needs (runFromSelect ops d rdy) ∧
+    ∃ pre, (runFromSelect ops d rdy).log = pre ++ d.log ∧
+      ∀ c ∈ (runFromSelect ops d rdy).conns, Ev.idle c.id ∈ pre := by
+  rw [runFromSelect_is_saved]; exact select_round L h rdy
+
+/-- **poll.**  Same, except that connections added during the round (they are not in the array
+    poll() was called with) are not visited; they are fresh. -/
+theorem poll_round_post {ops : Ops W} {needs : Local W → Bool} (L : Laws ops needs) {d : Daemon W}
+    (h : InvSP needs d) (rdy : Ready) :
+    InvSP needs (pollAll ops d rdy) ∧
+    ∃ pre, (pollAll ops d rdy).log = pre ++ d.log ∧
+      ∀ c ∈ (pollAll ops d rdy).conns, c.id ∈ ids d.newc ∨ Ev.idle c.id ∈ pre := by
+  rw [pollAll_is_saved]; exact poll_round L h rdy
+
+/-- the pending-work flag, spelled out: after a round, some active connection in a PROCESS state
+    ⇒ `data_already_pending` -/
+theorem pending_flag {needs : Local W → Bool} {d : Daemon W} (h : InvSP needs d) :
+    (∃ c ∈ d.conns, c.loc.eli.hasProcess = true) → d.dap = true :=
+  fun ⟨c, hc, hp⟩ => h.flag c hc hp
+
+/-! ## every history -/
+
+/-- The invariant holds in every state reachable from an empty daemon by any sequence of
+    MHD_add_connection (fresh connection), MHD_resume_connection and event-loop rounds with
+    arbitrary readiness, for the select loop (`poll = false`) and the poll loop. -/
+theorem invariant_reachable {ops : Ops W} {needs : Local W → Bool} (L : Laws ops needs) {poll : Bool} {d : Daemon W}
+    (h : Reach ops needs poll d) : InvSP needs d :=
+  reach_inv L h
+
+/-! ## no lost wake-up -/
+
+/-- **No lost wake-up.**  In every reachable state: if MHD_get_timeout64 answers "no timeout" and none
+    of the descriptors MHD_get_fdset2 asked to watch is ready, then no active connection has work that
+    could proceed — none needs processing, none waits for readability with a readable descriptor, none
+    waits for writability with a writable descriptor. -/
+theorem no_lost_wakeup {ops : Ops W} {needs : Local W → Bool} (L : Laws ops needs) {poll : Bool} {d : Daemon W}
+    (h : Reach ops needs poll d) (rdy : Ready) (q : Quiescent d rdy) :
+    ∀ c ∈ d.conns, needs c.loc = false ∧ ¬ (c.loc.eli.hasRead = true ∧ rdyR rdy c.id = true) ∧
+      ¬ (c.loc.eli.isWrite = true ∧ rdyW rdy c.id = true) :=
+  no_lost_wakeup_sp (reach_inv L h) rdy q
+
+/-! ## the loop that reads `pos->prev` after the call (F10) violates all of this -/
+
+/-- Two connections, lawful `ops`, a state satisfying the invariant: the older connection's client
+    closes while the newer one waits for its content callback.  With the pointer read after the
+    call the round handles only connection 0 (log), leaves connection 1 in a PROCESS state with
+    `data_already_pending = false`, answers "no timeout" and watches connection 1 for errors only:
+    quiescent while work is pending. -/
+theorem select_unsaved_prev_loses_wakeup :
+    Laws Witness.ops Witness.needs ∧ InvSP Witness.needs Witness.d0 ∧
+    (runFromSelectWith Witness.ops false Witness.d0 Witness.rdy).log = [.idle 0, .read 0] ∧
+    Quiescent (runFromSelectWith Witness.ops false Witness.d0 Witness.rdy) {} ∧
+    ∃ c ∈ (runFromSelectWith Witness.ops false Witness.d0 Witness.rdy).conns, Witness.needs c.loc = true := by
+  refine ⟨Witness.laws, Witness.d0_inv, Witness.after_log, ⟨Witness.after_hint, ?_, ?_⟩, ?_⟩
+  · rw [show getFdset (runFromSelectWith Witness.ops false Witness.d0 Witness.rdy) = _ from Witness.after_fdset]
+    intro id h; simp at h
+  · rw [show getFdset (runFromSelectWith Witness.ops false Witness.d0 Witness.rdy) = _ from Witness.after_fdset]
+    intro id h; simp at h
+  · decide
+
+/-- … and therefore breaks the invariant the other loops keep. -/
+theorem select_unsaved_prev_breaks_invariant :
+    ¬ InvSP Witness.needs (runFromSelectWith Witness.ops false Witness.d0 Witness.rdy) := by
+  intro h
+  obtain ⟨_, _, _, _, ⟨c, hc, hn⟩⟩ := select_unsaved_prev_loses_wakeup
+  have := h.flag c hc (h.sync c hc hn)
+  have hd : (runFromSelectWith Witness.ops false Witness.d0 Witness.rdy).dap = false := Witness.after_flags.1
+  rw [hd] at this; cases this
+
+/-- Non-vacuity of the round theorems: the same state and readiness under the loop of /repo —
+    both connections are handled, connection 1 stays active in a PROCESS state and the flag is set. -/
+example :
+    (runFromSelect Witness.ops Witness.d0 Witness.rdy).log = [.idle 1, .idle 0, .read 0] ∧
+    (runFromSelect Witness.ops Witness.d0 Witness.rdy).dap = true ∧
+    getTimeout (runFromSelect Witness.ops Witness.d0 Witness.rdy) = .zero := by decide
+
+/-- Non-vacuity of `no_lost_wakeup`: a reachable state with an active connection (one
+    MHD_add_connection, one round) that is quiescent as long as the client sends nothing. -/
+example : ∃ d, Reach Witness.ops Witness.needs false d ∧ d.conns.length = 1 ∧ Quiescent d {} := by
+  refine ⟨_, Reach.round {} (Reach.add { id := 7, loc := Witness.mkLoc stInit .read } (Reach.init true) (by decide)), ?_, ?_⟩
+  · decide
+  · refine ⟨by decide, ?_, ?_⟩ <;> intro id _ <;> rfl
+
 end Mhd.C06
